@@ -18,6 +18,8 @@ RULES = {
             "the offered value only; values and indices move together in the insertion shifts",
     "COUNT-STORE": "the occurrence number of each element is written back to the counter map on every path of the per-element loop, "
                    "under one key (the element hash)",
+    "STORE-TRACK": "a position's tracker entry is its l-th smallest stored value: a value is accepted only below values[last] and the "
+                   "tracker is updated with values[last] read after the insertion",
     "MUSTPASS": "in create_signature the sort of self.indices[start..end] dominates every read of self.indices for that position; "
                 "the combining hasher is created per position from self.wyhash_seed and fed hash_one(&data[idx]) of exactly the l "
                 "indices of that position, in index order; one push per position",
@@ -205,6 +207,34 @@ def store_rules(ctx, facts):
     return n
 
 
+def store_track(ctx, facts):
+    """STORE-TRACK: a position's entry in the max tracker is its l-th smallest stored value: update_with_maxtracker accepts a value
+    only if it is below values[last], and afterwards reports values[last] (read after the insertion) for the same position"""
+    fid = OMS + "update_with_maxtracker"
+    fn = facts.fn(fid)
+    t = tree_of(fn)
+    first = [nf.nf(e, True) for e in def_exprs(fn, "first_idx")]
+    last = [nf.nf(e, True) for e in def_exprs(fn, "last_idx")]
+    ups = [n for n in user_nodes(fn) if n["k"] == "MethodCall" and n["name"] == "update" and nf.nf(n["recv"]) == "maxtracker"]
+    ins = [w for (w, f, i) in writes_to_self(fn, "values") if nf.nf(w["r"], True) == "value"]
+    where = hirq.loc(fn)
+    okidx = first in (["(permuted_idx * self.l)"], ["(self.l * permuted_idx)"]) and last in (["((first_idx + self.l) - 1)"], ["((self.l + first_idx) - 1)"], ["(first_idx + (self.l - 1))"])
+    if not okidx:
+        ctx.violation("STORE-TRACK", fid, "slot range", where, "a position's block must be [permuted_idx*l, permuted_idx*l + l - 1]; found first_idx = %s, last_idx = %s" % (first, last))
+        return
+    if len(ups) != 1 or len(ins) != 1:
+        ctx.violation("STORE-TRACK", fid, "tracker report", where, "expected one insertion `values[..] = *value` and one maxtracker.update per accepted value; found %d / %d" % (len(ins), len(ups)))
+        return
+    u = ups[0]
+    conds = nf.all_conditions(t, u)
+    a0, a1 = nf.nf(u["args"][0], True), nf.nf(u["args"][1], True)
+    if a0 == "permuted_idx" and a1 == "self.values[last_idx]" and hir_dominates(t, ins[0], u) and nf.has_cmp(conds, "value", ("<",), "self.values[last_idx]") is not None:
+        ctx.ok("STORE-TRACK", fid, "accepted iff value < values[last]; tracker.update(position, values[last]) after the insertion", hirq.loc(u))
+    else:
+        ctx.violation("STORE-TRACK", fid, "tracker report", hirq.loc(u),
+                      "the tracker must be updated with (permuted_idx, self.values[last_idx]) read after the insertion, under `*value < self.values[last_idx]`; found update(%s, %s) under %s" % (a0, a1, conds[:2]))
+
+
 def signature_rules(ctx, facts):
     fid = OMS + "create_signature"
     fn = facts.fn(fid)
@@ -328,6 +358,7 @@ def run(ctx, facts):
     occurrence_rule(ctx, facts)
     st = store_rules(ctx, facts)
     ctx.floor("C11 store writes", st, 4)
+    store_track(ctx, facts)
     sg = signature_rules(ctx, facts)
     ctx.floor("C11 create_signature instances", sg, 5)
     resetbefore(ctx, facts)
